@@ -968,18 +968,29 @@ class Segment(Geodesic):
         a22 = products[..., 1, 1]
         a12 = products[..., 0, 1]
 
+        # the null vectors are sought as mu * p1 + (1 - mu) * p2, which
+        # misses one of them if p1 - p2 is itself null (this depends
+        # on the scale of the representatives p1, p2). This cannot
+        # happen if <p1, p2> > 0, so use -p2 to represent the second
+        # endpoint if necessary.
+        flip = np.where(a12 < 0, -1, 1)
+        a12 = flip * a12
+        end2 = flip[..., np.newaxis] * end_data[..., 1, :]
+
         a = a11 - 2 * a12 + a22
         b = 2 * a12 - 2 * a22
         c = a22
 
-        mu1 = (-b + np.sqrt(b * b - 4 * a * c)) / (2*a)
-        mu2 = (-b - np.sqrt(b * b - 4 * a * c)) / (2*a)
+        # now a < 0, and the larger root gives the ideal endpoint on
+        # the side of p1
+        mu1 = (-b - np.sqrt(b * b - 4 * a * c)) / (2*a)
+        mu2 = (-b + np.sqrt(b * b - 4 * a * c)) / (2*a)
 
         null1 = (mu1[..., np.newaxis] * end_data[..., 0, :] +
-                 (1 - mu1)[..., np.newaxis] * end_data[..., 1, :])
+                 (1 - mu1)[..., np.newaxis] * end2)
 
         null2 = (mu2[..., np.newaxis] * end_data[..., 0, :] +
-                 (1 - mu2)[..., np.newaxis] * end_data[..., 1, :])
+                 (1 - mu2)[..., np.newaxis] * end2)
 
         ideal_basis = np.stack([null1, null2], axis=-2)
 
